@@ -15,6 +15,8 @@ Line-protocol driver for C19 (see harness/cmd/vh/c19.go for the Go side).
   dec <sys> <bits>      ExcelDateToTime on an arbitrary float64
   encf <sys> <unixsec> <ns>   timeToExcelTime on the instant, float64 bit pattern of the result
                         (model: `Impl.timeToExcelTimeF` instantiated with `Float`)
+  decf <sys> <bits>     timeFromExcelTime (hook, no negative guard) on an arbitrary float64
+                        (model: `Impl.timeFromExcelTimeF` instantiated with `Float`)
   civ <z>               day number → (y, m, d) → day number
   flg <jd>              Fliegel–Van Flandern
 -/
@@ -44,6 +46,18 @@ def floatOps : Impl.FloatOps Float where
   ofInt n := if n ≥ 0 then n.toNat.toUInt64.toFloat else -((-n).toNat.toUInt64.toFloat)
   add a b := a + b
   div a b := a / b
+
+/-- float64 instance of the decoder's operations; constants are the nearest float64 to the exact
+value (numerator and denominator of every constant used are exactly representable, the division
+is correctly rounded), float→int truncates toward zero -/
+def floatOps2 : Impl.FloatOps2 Float where
+  toFloatOps := floatOps
+  sub a b := a - b
+  mul a b := a * b
+  const q := floatOps.ofInt q.num / floatOps.ofInt q.den
+  trunc x := x.toInt64.toInt
+  lt a b := a < b
+  le a b := a ≤ b
 
 def hex16 (n : Nat) : String :=
   String.ofList ((List.range 16).map fun i => hexDigit (n / 16 ^ (15 - i) % 16))
@@ -113,6 +127,10 @@ def step (w : List String) : String :=
     | some x => match Impl.excelDateToTime x (sys = "1") with
       | .ok t => "ok " ++ showCivil (civilOf t)
       | .error _ => "E_NEG"
+    | none => "bad-op"
+  | ["decf", sys, bits] =>
+    match parseHexNat bits with
+    | some b => "ok " ++ showCivil (civilOf (Impl.timeFromExcelTimeF floatOps2 (Float.ofBits b.toUInt64) (sys = "1")))
     | none => "bad-op"
   | ["encf", sys, sec, ns] =>
     match parseInt? sec, parseInt? ns with
